@@ -10,8 +10,11 @@
 //	    the state is exported, imported into a fresh application, exported again
 //	    and queried through the modules' gRPC query servers on both sides.  An
 //	    as-is import is then continued with the recorded blocks that follow.
-//	scenario -cfg name=<scenario>|all -out trace
-//	    scripted histories for the known findings, round-tripped the same way.
+//	scenario -cfg name=<scenario>|all|list|pending[,v=1][,dump=<module>][,keep=<dir>] -out trace
+//	    scripted histories (known findings, boundary object states, the walk over
+//	    the validation rules), round-tripped the same way; "list" / "all" = the
+//	    registered set, "pending" = scenarios of refusals not recorded as findings
+//	    yet (they run only when named).
 //
 // Trace lines (ReplicaTrace style, validated by GenesisTrace.tla):
 //
@@ -114,7 +117,7 @@ func newEv(name, rec string, h int64) chain.M {
 func newResEv(name, rec string, h int64) chain.M {
 	e := newEv(name, rec, h)
 	e["res"] = chain.M{"err": "", "broken": []any{}, "fixpoint": boolMap(true), "durable": boolMap(true),
-		"lost": listMap(), "diff": listMap(), "nobj": numMap(), "kind": strMap(),
+		"lost": listMap(), "diff": listMap(), "nobj": numMap(), "kind": strMap(), "kinds": listMap(),
 		"due_now": boolMap(false), "due_next": boolMap(false), "randoms_src": int64(0), "randoms_lost": int64(0)}
 	return e
 }
@@ -228,16 +231,32 @@ func compareAnswers(e chain.M, qs []objQuery, want, got Answers) {
 			fmt.Printf("  [%s] %s\n    source:   %s\n    imported: %s\n", q.mod, q.id, short(w, 1500), short(g, 1500))
 		}
 	}
-	kind := rs(e)["kind"].(chain.M)
+	kind, kinds := rs(e)["kind"].(chain.M), rs(e)["kinds"].(chain.M)
 	for _, m := range Modules {
-		// kind: the object class of the first answer that differs (known
-		// findings are keyed by it); lost objects first
+		// kind: the object class of the first answer that differs; lost objects
+		// first.  kinds: every object class with a differing answer — known
+		// findings are keyed by (module, class), so that a known difference in one
+		// class of answers never hides a difference in another class of the same
+		// module on the same event
 		all := append(append([]string{}, l[m]...), d[m]...)
 		if len(all) > 0 {
 			sort.Strings(l[m])
 			sort.Strings(d[m])
 			first := append(append([]string{}, l[m]...), d[m]...)[0]
 			kind[m] = strings.SplitN(first, "/", 2)[0]
+			seen, ks := map[string]bool{}, []string{}
+			for _, id := range all {
+				if k := answerClass(strings.SplitN(id, "/", 2)[0]); !seen[k] {
+					seen[k] = true
+					ks = append(ks, k)
+				}
+			}
+			sort.Strings(ks)
+			var kl []any
+			for _, k := range ks {
+				kl = append(kl, k)
+			}
+			kinds[m] = kl
 		}
 	}
 	for m, ids := range l {
@@ -248,7 +267,33 @@ func compareAnswers(e chain.M, qs []objQuery, want, got Answers) {
 	}
 }
 
+// answerClass: the object class an answer is about; the list answers of a
+// module ("pools", "tokensof/<owner>") belong to the class of their elements.
+func answerClass(prefix string) string {
+	switch prefix {
+	case "pools":
+		return "pool"
+	case "feeds":
+		return "feed"
+	case "tokens", "tokensof", "tokenbyunit":
+		return "token"
+	case "classes":
+		return "class"
+	case "bindings":
+		return "binding"
+	case "mts":
+		return "mt"
+	case "supplies":
+		return "supply"
+	}
+	return prefix
+}
+
 var verbose bool
+
+// dumpMod (cfg dump=<module>): print that module's section of every as-is export
+// (for writing scenarios: shows which states a history really reaches).
+var dumpMod string
 
 // ---------------------------------------------------------------------------
 
@@ -316,6 +361,9 @@ func (s *session) roundTrip(mode string, nextHasAuthority bool) *live {
 		e["exported"], e["accepted"] = false, false
 		return fail("export", err.Error())
 	}
+	if dumpMod != "" && !zero {
+		fmt.Printf("[%s h=%d] exported %s: %s\n", s.name, h, dumpMod, string(gs[dumpMod]))
+	}
 
 	// (b) import into a fresh application
 	ih := h + 1
@@ -327,6 +375,9 @@ func (s *session) roundTrip(mode string, nextHasAuthority bool) *live {
 		e["accepted"] = false
 		rs(e)["fixpoint"], rs(e)["durable"] = boolMap(false), boolMap(false)
 		e["culprit"] = s.culprit(gs, ih, t)
+		if known, holds := reasonHolds(src, gs, errs); known && !holds {
+			errs = refutedMark + errs
+		}
 		return fail("initchain", errs)
 	}
 	// the imported state is read at the source's height and time so that answers
@@ -552,7 +603,12 @@ func appHashDependent(c *chain.Chain, ctx sdk.Context) map[string]bool {
 }
 
 // runRecording replays one recording with round trips every K blocks.
-func runRecording(w *chain.TraceWriter, path string, every, cont, at, extra int64) error {
+//
+// marks, when not nil, replaces the every-K rule: a round trip is taken after
+// exactly the marked heights (scenarios mark the blocks in which they did
+// something and leave their waiting loops unmarked), plus the boundary heights
+// and the last block.
+func runRecording(w *chain.TraceWriter, path string, every, cont, at, extra int64, marks map[int64]bool) error {
 	rec, err := chain.ReadRecording(path)
 	if err != nil {
 		return err
@@ -587,6 +643,9 @@ func runRecording(w *chain.TraceWriter, path string, every, cont, at, extra int6
 		last := i == len(rec.Blocks)-1
 		s.stepLives(b, res, last)
 		due := (int64(i)+1)%every == 0 || last
+		if marks != nil {
+			due = marks[b.Height] || last
+		}
 		if !due && extra > 0 {
 			// boundary heights: something falls due in the very next block
 			_, next := dueInfo(s.src, s.src.Ctx())
@@ -619,6 +678,7 @@ func driver(mode string, fl *drv.Flags) error {
 	w := chain.NewTraceWriter(fl.Out)
 	defer w.Close()
 	verbose = fl.CfgInt("v", 0) == 1
+	dumpMod = fl.CfgStr("dump", "")
 	switch mode {
 	case "roundtrip":
 		every := fl.CfgInt("every", 5)
@@ -629,7 +689,7 @@ func driver(mode string, fl *drv.Flags) error {
 			if rp == "" {
 				continue
 			}
-			if err := runRecording(w, rp, every, fl.CfgInt("cont", -1), fl.CfgInt("at", 0), fl.CfgInt("boundary", 3)); err != nil {
+			if err := runRecording(w, rp, every, fl.CfgInt("cont", -1), fl.CfgInt("at", 0), fl.CfgInt("boundary", 3), nil); err != nil {
 				return err
 			}
 		}
